@@ -589,7 +589,9 @@ func (d *driver) apply(m move) {
 		d.appendEvent(d.newEvent())
 	case "notify":
 		n := istructs.Offset(len(d.events))
-		if d.sc.Stream == "malformed" {
+		if m.fault > 0 {
+			n = istructs.Offset(m.fault) // scripted: "notify:N"
+		} else if d.sc.Stream == "malformed" {
 			switch d.rng.Intn(4) {
 			case 0:
 				n += istructs.Offset(1 + d.rng.Intn(3)) // ahead of the log
